@@ -271,6 +271,16 @@ def gen_tagf(tier, seed):
                         p_ = tagf_prog(L, cons, ce, B, D, P, inner=[list(x) for x in inner])
                         p_["pos"] = cons + ":" + iname
                         yield p_, (0,)
+    # a def that is also cached="True": on the first render of a fresh template the cache is empty and the def means what
+    # it means uncached - its own filter= list and the buffer_filters apply exactly once (one value per template object)
+    for L in lists_upto(F, 1 if tier == "quick" else 2):
+        for cons in ("def-f", "def-bf"):
+            for B in B_ALL:
+                for D, P in DPs[:2]:
+                    p_ = tagf_prog(L, cons, [], B, D, P)
+                    p_["body"][0][2]["cached"] = True
+                    p_["pos"] = cons + ":cached"
+                    yield p_, (0,)
     # buffered def without a filter= attribute: only buffer_filters apply
     for ce in ([], ["n"], ["f2"]):
         for B in B_ALL:
